@@ -198,9 +198,17 @@ def harmonic_forces_for_file(read_cell, ideal_cell_model, fc_model, length_unit)
     return (Fm @ Rt)[perm], perm
 
 
-def write_force_output(calc, filename, read_cell, forces_eVA, energy=-10.0, later_steps=None):
-    """Write a calculator output file carrying `forces_eVA` (file atom order) in the calculator's format and native unit."""
-    F = np.array(forces_eVA) / OUTPUT_FORCE_UNIT[calc]
+# every interface except VASP subtracts the mean force ("drift") of an output before writing FORCE_SETS
+SUBTRACTS_DRIFT = sorted(set(UNITS) - {"vasp"})
+
+
+def write_force_output(calc, filename, read_cell, forces_eVA, energy=-10.0, later_steps=None, drift=None):
+    """Write a calculator output file carrying `forces_eVA` (file atom order) in the calculator's format and native unit.
+    drift: constant force (eV/angstrom) added to every atom, as the residual net force of a real calculation."""
+    F = np.array(forces_eVA, dtype=float)
+    if drift is not None and calc in SUBTRACTS_DRIFT:
+        F = F + np.asarray(drift, dtype=float)[None, :]
+    F = F / OUTPUT_FORCE_UNIT[calc]
     n = len(F)
     if calc == "vasp":
         with open(filename, "w") as w:
